@@ -110,6 +110,7 @@ enum Fam {
   Palette,
   Lcdc,
   Steady,
+  Toggle,
 }
 
 impl Fam {
@@ -123,6 +124,7 @@ impl Fam {
       Fam::Palette => "palette",
       Fam::Lcdc => "lcdc",
       Fam::Steady => "steady",
+      Fam::Toggle => "toggle",
     }
   }
   fn id(self) -> u64 {
@@ -211,6 +213,22 @@ fn rich_oam(mixed: bool) -> [u8; 160] {
   oam
 }
 
+/// objects on the first and the last visible line and at the left and right screen edges:
+/// what a frame leaves behind in per-line state is what its last line put there
+fn edge_oam() -> [u8; 160] {
+  let mut oam = [0u8; 160];
+  for i in 0..40usize {
+    let grp = i / 10;
+    let k = i % 10;
+    let y = [159usize, 152, 16, 9][grp];
+    let x = if grp & 1 == 0 { 4 + k * 17 } else { 1 + k * 19 };
+    let tile = (i * 5 + 9) & 0xff;
+    let attr = ((i * 7 + 1) & 0xf) << 4;
+    put(&mut oam, i, y as u8, x as u8, tile as u8, attr as u8);
+  }
+  oam
+}
+
 /// Class part of a violation key when no cause could be derived: a coarse scene class
 /// (bg | window | obj | mixed) and its primary parameter class.  The finer parameter
 /// class (`pclass`) goes into the detail only, so one root cause maps to a few keys.
@@ -220,7 +238,7 @@ fn scene_class(c: &Case) -> String {
     Fam::Bg => format!("scene=bg data={}", if l & 0x10 != 0 { "8000" } else { "8800" }),
     Fam::Window => format!("scene=window wx={}", if l & 0x20 != 0 { wx_class(c.regs.wx) } else { "off" }),
     Fam::Obj1 | Fam::Obj2 | Fam::ObjLine => format!("scene=obj size={}", if l & 0x04 != 0 { "8x16" } else { "8x8" }),
-    Fam::Palette | Fam::Lcdc | Fam::Steady => "scene=mixed".to_string(),
+    Fam::Palette | Fam::Lcdc | Fam::Steady | Fam::Toggle => "scene=mixed".to_string(),
   }
 }
 
@@ -368,6 +386,22 @@ fn build(fam: Fam, a: &[u16]) -> Case {
       c.pclass = format!("batch={} alternate={}", if c.batch < 456 { "<456" } else if c.batch == 456 { "456" } else { ">456" }, a[4]);
       c
     },
+    // [img, lcdc bits 1-6, bit toggled for the second frame, oam layout, batch]
+    Fam::Toggle => {
+      let lcdc = 0x81 | ((a[1] as u8) << 1);
+      let bit = 1u8 << (a[2] as u8);
+      let mut c = new_case(fam, img, regs(lcdc, 0x0D, 0x25, 87, 72));
+      c.oam = if a[3] != 0 { edge_oam() } else { rich_oam(true) };
+      c.batch = a[4] as usize;
+      c.frames = 3;
+      // the second presented frame differs in exactly one LCDC bit (changed inside VBlank),
+      // the third is the first scene again: both directions of every single-bit change
+      let r2 = regs(lcdc ^ bit, 0x0D, 0x25, 87, 72);
+      c.then = Some((img, r2, c.oam));
+      c.excluded = glitch_exclusion(&c.regs).or(glitch_exclusion(&r2));
+      c.pclass = format!("lcdc-bit{} {} oam={}", a[2], if lcdc & bit != 0 { "on>off>on" } else { "off>on>off" }, if a[3] != 0 { "edge-lines" } else { "rich" });
+      c
+    },
   }
 }
 
@@ -487,6 +521,8 @@ fn stages(thorough: bool) -> Vec<Stage> {
   st.push(Stage { name: "lcdc", fam: Fam::Lcdc, axes: vec![("image", imgs3.clone()), ("scene", if thorough { all(8) } else { vec![0, 3, 5, 6] }), ("lcdc bits1-6", all(64))] });
   // ---- batch size independence, second and third presented frame
   st.push(Stage { name: "steady", fam: Fam::Steady, axes: vec![("image", vec![0]), ("scene", if thorough { all(8) } else { vec![0, 7] }), ("lcdc", all(4)), ("batch", BATCHES.to_vec()), ("alternate scenes", bits.clone())] });
+  // ---- one LCDC bit changed between consecutive frames, every bit, both directions
+  st.push(Stage { name: "lcdc-toggle", fam: Fam::Toggle, axes: vec![("image", if thorough { imgs3.clone() } else { vec![0] }), ("lcdc bits1-6", all(64)), ("toggled bit", vec![1, 2, 3, 4, 5, 6]), ("oam layout", bits.clone()), ("batch", if thorough { vec![4, 456, 912] } else { vec![456] })] });
   st
 }
 
